@@ -129,7 +129,8 @@ def dims_for(repo, flags):
         ty = TY.Typer(repo, RE.ROARING_DIMS)
         tn = T.Taint(repo, ty, set())  # no encoder exempted: "may hold grammar text at run time"
         hole_text = {tok[3:-3]: any(tn.raw(f, e, env) for f, e, env in lst) for tok, lst in asm.holes.items()}
-        te = T.Taint(repo, ty, {"make_string_constant"})  # what reaches the hole WITHOUT the module's string-constant encoder
+        from vlib import xducer as X_
+        te = T.Taint(repo, ty, {"make_string_constant"} | {f.name for f in X_.find_encoders(repo, "bash")})  # what reaches the hole WITHOUT the module's string-constant encoder
         hole_raw = {tok[3:-3]: any(te.raw(f, e, env) for f, e, env in lst) for tok, lst in asm.holes.items()}
         _dims[key] = (SD.Dims(tree, hole_text), hole_text, hole_raw)
     return _dims[key]
@@ -387,7 +388,7 @@ def walk_rule(repo, res, tier, rule="SK-WALK", report_leniency=True):
                     for i, s in enumerate(it):
                         if s.kind == "simple" and any(a[0] == "state" for a in B.assignments(s)):
                             rest = it[i + 1 :]
-                            incs = [x for x in rest if x.kind == "simple" and any(a[0] == "word_index" and a[3].replace(" ", "") == "$((word_index+1))" for a in B.assignments(x))]
+                            incs = [x for x in it if x.kind == "simple" and any(a[0] == "word_index" and a[3].replace(" ", "").replace("$word_index", "word_index") == "$((word_index+1))" for a in B.assignments(x))]
                             conts = [x for x in rest if x.kind == "simple" and x.words[:1] == ["continue"]]
                             rec(f"W3:{tname}:advance-once[{tag}]", len(incs) == 1 and len(conts) == 1, f"after a state update: {len(incs)} word_index increments, {len(conts)} continue", s.line)
         # W5: the literal test compares the literal with the quoted word by equality
@@ -493,7 +494,7 @@ def fb_rule(repo, res, tier, rule="SK-FB"):
             rec("F5:wordbreaks-only-trim-reply", not outside and bool(inside), "COMP_WORDBREAKS is read only inside the reply block (and handed to _get_comp_words_by_ref)" if not outside else f"COMP_WORDBREAKS also used at lines {[n.line for n in outside]}", last.line)
             # the suffix compared is what follows the LAST occurrence of each word-break character: ${prefix##*$char}
             sfx = [a for n2, *_ in B.walk(last) if n2.kind == "simple" for a in B.assignments(n2) if re.search(r"\$\{prefix#", a[3])]
-            okl = bool(sfx) and all(re.fullmatch(r'"?\$\{prefix##\*\$\{?char\}?\}"?', a[3]) for a in sfx)
+            okl = bool(sfx) and all(re.fullmatch(r'"?\$\{prefix##\*\$\{?\w+\}?\}"?', a[3]) for a in sfx)
             rec("F5:suffix-after-last-wordbreak", okl, f"{[a[0] + '=' + a[3] for a in sfx]}" + ("" if okl else ": the suffix must be taken after the LAST occurrence of the word-break character (##*), as bash itself strips the typed prefix; a single # cuts at the first occurrence and leaves part of the typed word in every reply"), last.line)
             shortest = [c for n2, *_ in B.walk(last) if n2.kind == "cond" for c in [n2.text] if "#candidate" in c or "#shortest_suffix" in c]
             oks = any(re.fullmatch(r"\$\{#candidate\} -lt \$\{#shortest_suffix\}", c.strip()) for c in shortest)
@@ -765,11 +766,20 @@ def cmd_rule(repo, res, tier, rule="SK-CMD"):
     # V2: command ids are unoffset and shared (Rust side)
     fn = repo.fn(ENTRY)
     envs = A.collect_envs(fn)
-    loops = [n for n in A.walk(fn.body) if n["k"] == "ForLoop" and "id_from_cmd" in repo.text(fn.file, n["iter"])]
+    from . import c04 as _c04
+    setname = _c04.cmd_set_name(repo, fn, envs)
+    loops = [n for n in A.walk(fn.body) if n["k"] == "ForLoop" and setname and re.search(r"\b%s\b" % re.escape(setname), repo.text(fn.file, n["iter"]))]
     ok = False
     if loops:
-        lets = [s for s in loops[0]["body"]["stmts"] if s["k"] == "Local" and s["pat"]["k"] == "PIdent" and s["pat"]["name"] == "id"]
-        ok = bool(lets) and "get_index_of(cmd)" in "".join(repo.text(fn.file, lets[0]["init"]).split())
+        # the id printed in the function name is the position of the loop's element in that same set
+        for st in loops[0]["body"]["stmts"]:
+            if st["k"] == "Local" and st.get("init") is not None:
+                txt = "".join(repo.text(fn.file, st["init"]).split())
+                if re.fullmatch(re.escape(setname) + r"\.get_index_of\(\w+\)\.unwrap\(\)", txt):
+                    ok = True
+        if not ok:
+            # or an enumerate() over the set
+            ok = "enumerate()" in "".join(repo.text(fn.file, loops[0]["iter"]).split())
     res.check(ok, rule, f"{rule}:V2:function-id-is-table-id", "the <id> of _<cmd>_cmd_<id> is id_from_cmd.get_index_of(cmd): the same numbering the tables use (CommandId, unoffset)", fn.loc())
     trim = any(n["k"] == "MethodCall" and n["method"] == "trim" for l in loops for n in A.walk(l))
     res.check(trim, rule, f"{rule}:V1:trimmed-command", "the command text is emitted after trim() (`:` when empty)", fn.loc())
